@@ -11,8 +11,9 @@ CONSTANTS Fams,        \* subset of {"accept", "mime", "language", "charset"}
           Seps, QPres, \* separators
           Wide,        \* BOOLEAN: the wider range / offer universe
           Variant      \* "fixed" | "head" (language fallbacks before the fixes) | "nospec" | "qfirst"
-VARIABLES fam, offers, hdr, want, n
-vars == <<fam, offers, hdr, want, n>>
+VARIABLES fam, offers, hdr, want, n,
+          r            \* everything derived from (fam, hdr, offers), computed once per state
+vars == <<fam, offers, hdr, want, n, r>>
 
 RangesOf(f) == CASE f = "mime" -> IF Wide THEN RangesWideMime ELSE RangesMime
                  [] f = "language" -> IF Wide THEN RangesWideLanguage ELSE RangesLanguage
@@ -23,65 +24,78 @@ OffersOf(f) == CASE f = "mime" -> IF Wide THEN OffersWideMime ELSE OffersMime
                  [] f = "charset" -> IF Wide THEN OffersWideCharset ELSE OffersCharset
                  [] f = "accept" -> IF Wide THEN OffersWideAccept ELSE OffersAccept
 
-Init == /\ fam \in Fams
-        /\ offers \in (SeqsUpTo(OffersOf(fam), MaxOffers) \ {<<>>})
-        /\ hdr = <<>> /\ want = <<>> /\ n = 0
-
-\* append one list element; `want` is the intended parse, kept structurally (not via the parser)
-Add == /\ n < MaxItems
-       /\ \E r \in RangesOf(fam), q \in QTexts, sep \in Seps, qp \in QPres :
-            LET it == r.txt \o (IF q.absent THEN <<>> ELSE qp \o q.txt) IN
-            /\ hdr' = IF n = 0 THEN it ELSE hdr \o sep \o it
-            /\ want' = IF q.val < 0 THEN want ELSE Append(want, [main |-> r.main, params |-> r.params, q |-> q.val])
-       /\ n' = n + 1
-       /\ UNCHANGED <<fam, offers>>
-Next == Add
-Spec == Init /\ [][Next]_vars
-
-V == IF n = 0 THEN <<>> ELSE Valid(hdr)
-S == SortDesc(fam, V)
 \* variant "qfirst": sort by quality before specificity (the order before werkzeug 0.9)
 RECURSIVE InsQ(_, _)
 InsQ(sorted, x) == IF sorted = <<>> THEN <<x>>
-                   ELSE IF Head(sorted).q < x.q \/ (Head(sorted).q = x.q /\ LexLess(SpecOf(fam, Head(sorted)), SpecOf(fam, x)))
+                   ELSE IF Head(sorted).q < x.q \/ (Head(sorted).q = x.q /\ LexLess(Head(sorted).spec, x.spec))
                         THEN <<x>> \o sorted ELSE <<Head(sorted)>> \o InsQ(Tail(sorted), x)
 RECURSIVE SortQ(_)
 SortQ(W) == IF W = <<>> THEN <<>> ELSE InsQ(SortQ(SubSeq(W, 1, Len(W) - 1)), W[Len(W)])
-SI == IF Variant = "qfirst" THEN SortQ(V) ELSE S
-Impl == IF fam = "language" THEN ImplLang(V, offers, Variant) ELSE ImplBest(fam, SI, offers, Variant)
-Q(k) == Quality(fam, V, offers[k])
+
+Eval(f, h, os, nn) ==
+  LET ps == ParseAll(h)
+      V  == IF nn = 0 THEN <<>> ELSE ValidP(ps)
+      PV == [i \in 1..Len(V) |-> PrepItem(f, V[i]) @@ [pos |-> i]]
+      PO == PrepOffers(f, os)
+      sm == SummaryP(f, V, PV, PO)
+      S  == IF Variant = "qfirst" THEN SortQ(PV) ELSE SortDesc(PV)
+  IN [V      |-> V,
+      sm     |-> sm,
+      choice |-> ChoiceS(f, V, os, sm),
+      impl   |-> IF f = "language" THEN ImplLang(V, os, Variant) ELSE ImplBest(f, S, PO, Variant),
+      iq     |-> [k \in 1..Len(os) |-> ImplQuality(f, S, PO[k])],
+      S      |-> S,
+      indom  |-> (nn > 0 => InDomainP(f, h, ps)) /\ \A k \in 1..Len(os) : OfferInDomain(f, os[k])]
+
+Init == /\ fam \in Fams
+        /\ offers \in (SeqsUpTo(OffersOf(fam), MaxOffers) \ {<<>>})
+        /\ hdr = <<>> /\ want = <<>> /\ n = 0
+        /\ r = Eval(fam, hdr, offers, 0)
+
+\* append one list element; `want` is the intended parse, kept structurally (not via the parser)
+Add == /\ n < MaxItems
+       /\ \E rg \in RangesOf(fam), q \in QTexts, sep \in Seps, qp \in QPres :
+            LET it == rg.txt \o (IF q.absent THEN <<>> ELSE qp \o q.txt) IN
+            /\ hdr' = IF n = 0 THEN it ELSE hdr \o sep \o it
+            /\ want' = IF q.val < 0 THEN want ELSE Append(want, [main |-> rg.main, params |-> rg.params, q |-> q.val])
+       /\ n' = n + 1
+       /\ UNCHANGED <<fam, offers>>
+       /\ r' = Eval(fam, hdr', offers, n')
+Next == Add
+Spec == Init /\ [][Next]_vars
+
+Impl == r.impl
+Q(k) == r.sm[k].q
+DS(k) == r.sm[k].ds
 
 \* ---- the universe is inside the claimed domain, and the parser returns the intended items
-UniverseInDomain == /\ (n > 0 => HeaderInDomain(fam, hdr))
-                    /\ \A k \in 1..Len(offers) : OfferInDomain(fam, offers[k])
-ParseIgnoresBadQ == n > 0 => Valid(hdr) = want
+UniverseInDomain == r.indom
+ParseIgnoresBadQ == r.V = want
 \* ---- the property, stated on the implementation-shaped model's result
-ImplMeetsContract == Impl = Choice(fam, V, offers)
-ImplQualityOK == \A k \in 1..Len(offers) : ImplQuality(fam, SI, offers[k]) = Q(k)
+ImplMeetsContract == Impl = r.choice
+ImplQualityOK == \A k \in 1..Len(offers) : r.iq[k] = Q(k)
 NeverZeroOrUnmatched ==
-  Impl > 0 => IF fam = "language" THEN ~(Matched(fam, V, offers[Impl]) /\ Q(Impl) = 0)
-              ELSE Matched(fam, V, offers[Impl]) /\ Q(Impl) > 0
+  Impl > 0 => IF fam = "language" THEN ~(r.sm[Impl].m /\ Q(Impl) = 0)
+              ELSE r.sm[Impl].m /\ Q(Impl) > 0
 HighestQuality ==
   /\ Impl > 0 => (Q(Impl) > 0 => \A k \in 1..Len(offers) : Q(k) <= Q(Impl))
   /\ Impl = 0 => \A k \in 1..Len(offers) : Q(k) = 0
 MoreSpecificWinsTies ==
-  (Impl > 0 /\ Q(Impl) > 0) => \A k \in 1..Len(offers) :
-      Q(k) = Q(Impl) => ~LexLess(DecSpec(fam, V, offers[Impl]), DecSpec(fam, V, offers[k]))
+  (Impl > 0 /\ Q(Impl) > 0) => \A k \in 1..Len(offers) : Q(k) = Q(Impl) => ~LexLess(DS(Impl), DS(k))
 OfferOrderBreaksTies ==
-  (Impl > 0 /\ Q(Impl) > 0) => \A k \in 1..(Impl - 1) :
-      ~(Q(k) = Q(Impl) /\ DecSpec(fam, V, offers[k]) = DecSpec(fam, V, offers[Impl]))
+  (Impl > 0 /\ Q(Impl) > 0) => \A k \in 1..(Impl - 1) : ~(Q(k) = Q(Impl) /\ DS(k) = DS(Impl))
 \* language fallbacks: a fallback choice shares its primary tag with a range of positive q
 FallbackSharesPrimary ==
   (fam = "language" /\ Impl > 0 /\ Q(Impl) = 0) =>
-      \E i \in 1..Len(V) : V[i].q > 0 /\ V[i].main # STARS
-                           /\ Lower(Primary(V[i].main)) = Lower(Primary(offers[Impl]))
-\* sorted list: stable, i.e. the client's order among equal (specificity, q)
+      \E i \in 1..Len(r.V) : r.V[i].q > 0 /\ r.V[i].main # STARS
+                             /\ Lower(Primary(r.V[i].main)) = Lower(Primary(offers[Impl]))
+\* sorted list: a permutation that keeps the client's order among equal (specificity, q)
 SortKeepsOrder ==
-  \A i, j \in 1..Len(S) : (i < j /\ SpecOf(fam, S[i]) = SpecOf(fam, S[j]) /\ S[i].q = S[j].q) =>
-      \E a, b \in 1..Len(V) : a < b /\ V[a] = S[i] /\ V[b] = S[j]
+  /\ {r.S[i].pos : i \in 1..Len(r.S)} = 1..Len(r.V) /\ Len(r.S) = Len(r.V)
+  /\ \A i, j \in 1..Len(r.S) : (i < j /\ r.S[i].spec = r.S[j].spec /\ r.S[i].q = r.S[j].q) => r.S[i].pos < r.S[j].pos
 
 \* ---- export for the replay against the real classes
 Export == IF n = 0 THEN TRUE
-          ELSE PrintT(ToJson([fam |-> fam, hdr |-> hdr, offers |-> offers, best |-> Choice(fam, V, offers),
+          ELSE PrintT(ToJson([fam |-> fam, hdr |-> hdr, offers |-> offers, best |-> r.choice,
                               quals |-> [k \in 1..Len(offers) |-> Q(k)]]))
 =============================================================================
